@@ -400,7 +400,12 @@ func ParseTemplateSource(src []byte, format ast.Format, imported, noParseShow bo
 
 		// EndURL
 		case tokenEndURL:
-			pos := p.parent().Pos()
+			url, ok := p.parent().(*ast.URL)
+			if !ok {
+				// A statement opened in the value has not been closed.
+				return nil, nil, syntaxError(tok.pos, "unexpected end of URL, expecting {%% end %%}")
+			}
+			pos := url.Pos()
 			pos.End = tok.pos.End - 1
 			p.removeLastAncestor()
 			tok = p.next()
